@@ -140,9 +140,11 @@ where
                     // Convert Bytes to Vec<u8>
                     let byte_vec: Vec<u8> = chunk.to_vec();
                     // Convert Vec<u8> to Vec<u16>
+                    // an odd trailing byte cannot form a utf-16 code unit, skip it instead of indexing out of bounds
                     let u16_vec: Vec<u16> = byte_vec
-                        .chunks(2)
-                        .map(|chunk| u16::from_le_bytes([chunk[0], chunk[1]]))
+                        .chunks_exact(2)
+                        .filter_map(|chunk| <[u8; 2]>::try_from(chunk).ok())
+                        .map(u16::from_le_bytes)
                         .collect();
 
                     body_string.push_str(&String::from_utf16_lossy(&u16_vec));
